@@ -1952,6 +1952,9 @@ matrix_rem_generic(PyObject *self, PyObject *other, int inplace)
 
   if (id == COMPLEX) PY_ERR(PyExc_NotImplementedError, "complex modulo");
 
+  if (inplace && id != id_self)
+    PY_ERR_TYPE("invalid inplace operation");
+
   number n;
   convert_num[id](&n,other,(Matrix_Check(other) ? 0 : 1),0);
 
@@ -1968,7 +1971,10 @@ matrix_rem_generic(PyObject *self, PyObject *other, int inplace)
     if (!ptr) return PyErr_NoMemory();
 
     int lgt = MAT_LGT(self);
-    if (mtx_rem[id](ptr,n,lgt)) { free(ptr); return NULL; }
+    if (mtx_rem[id](ptr,n,lgt)) {
+      if (ptr != MAT_BUF(self)) { free(ptr); }
+      return NULL;
+    }
 
     free_convert_mtx_alloc(self, ptr, id);
     Py_INCREF(self);
